@@ -14,10 +14,11 @@
 (*         the whole pipeline on SQLite: the Logica literal text `lit`     *)
 (*         (or, for pos = "user", the command-line flag value) was placed  *)
 (*         in position pos; SQLite returned the string got.                *)
-(*  "sql"  [id, d, pos, ctx, form, lit, status, ref, at, len, sql]                    *)
+(*  "sql"  [id, d, pos, ctx, form, lit, status, ref, mpos, sql]            *)
 (*         compile-only: `ref` is the statement compiled with the plain    *)
-(*         marker string (its literal at ref[at .. at+len-1]), `sql` the   *)
-(*         statement compiled with the literal `lit` in the same place.    *)
+(*         marker string (whose characters start at ref[mpos]; the extent  *)
+(*         of its literal is found by StrLit!LitSpan), `sql` the statement *)
+(*         compiled with the literal `lit` in the same place.              *)
 (*                                                                         *)
 (* One TLC state per record.  A verdict tuple <<"V", json>> is printed for *)
 (* every record that is not "ok"; <<"S", json>> summarises coverage.       *)
@@ -77,15 +78,17 @@ PipeWhy(r) ==
 
 SqlWhy(r) ==
   LET dn == Denoted(r)
+      sp == LitSpan(r.d, r.ref, r.mpos, Marker)
   IN IF ~dn.ok THEN "harness-literal-not-decodable"
+     ELSE IF ~sp.ok THEN "marker-not-emitted-as-one-literal"
      ELSE IF HasParamForm(dn.val) THEN
        IF r.status = "reject" \/ (r.status = "ok" /\
-            SameShape(r.d, r.ref, r.at, r.len, r.sql, dn.val, Marker))
+            SameShapeAt(r.d, r.ref, sp.at, sp.len, r.sql, dn.val))
        THEN "ok" ELSE "param-form-" \o r.status
      ELSE IF r.status # "ok" THEN "status-" \o r.status
-     ELSE IF ~SameShape(r.d, r.ref, r.at, r.len, r.sql, dn.val, Marker)
-       THEN LET suf == Len(r.ref) - (r.at + r.len) + 1
-                mid == SubSeq(r.sql, r.at, Len(r.sql) - suf)
+     ELSE IF ~SameShapeAt(r.d, r.ref, sp.at, sp.len, r.sql, dn.val)
+       THEN LET suf == Len(r.ref) - (sp.at + sp.len) + 1
+                mid == SubSeq(r.sql, sp.at, Len(r.sql) - suf)
             IN "shape-" \o Verdict(r.d, mid, dn.val)
      ELSE "ok"
 
